@@ -43,6 +43,20 @@ class FixSyntax:
     def commenter(self):
         return _Commenter(self.code)
 
+    def original_lineno(self, lineno):
+        """The line of the given code that line `lineno` of the fixed module stands for"""
+        origs = self.commenter.origs
+        if 0 < lineno <= len(origs):
+            return origs[lineno - 1] + 1
+        return lineno
+
+    def _fixed_lineno(self, lineno):
+        """The line of the fixed module that stands for line `lineno` of the given code"""
+        origs = self.commenter.origs
+        if 0 < lineno and lineno - 1 in origs:
+            return len(origs) - origs[::-1].index(lineno - 1)
+        return lineno
+
     def pyname_at(self, offset):
         pymodule = self.get_pymodule()
 
@@ -50,8 +64,10 @@ class FixSyntax:
             word_finder = worder.Worder(self.code, True)
             expression = word_finder.get_primary_at(offset)
             expression = expression.replace("\\\n", " ").replace("\n", " ")
-            lineno = self.code.count("\n", 0, offset)
-            scope = pymodule.get_scope().get_inner_scope_for_line(lineno)
+            lineno = self.code.count("\n", 0, offset) + 1
+            scope = pymodule.get_scope().get_inner_scope_for_line(
+                self._fixed_lineno(lineno)
+            )
             return evaluate.eval_str(scope, expression)
 
         new_code = pymodule.source_code
